@@ -1,6 +1,14 @@
-(** C08 — Well numbering is column-major, 1-based, and device-specific for troughs.
-    Statements only; proofs in Proofs/WellsProofs.v. *)
-From Robo Require Import Prelude Str Wells WellsProofs.
+(** C08 — Well numbering is column-major, 1-based, and device-specific for troughs; operations naming a
+    well id that does not exist in the labware raise without emitting a record.
+    Statements only; proofs in Proofs/WellsProofs.v and (worklist level, audit item M7)
+    Proofs/WorklistLevelProofs.v.
+
+    For M7: the guard is [lw_index L w = None] ([labware.indices[w]] raises KeyError), not the position
+    functions.  [remove_stops_at] / [add_stops_at] (stated below) describe where a rejected removal /
+    addition stopped; [record_error e] = [e] is EReject, EInvalidOp or ECompat; [ex_plate] / [ex_trough] are
+    the example labware of Proofs/LabwareProofs.v (2 x 3 plate; trough with 8 virtual rows, 2 columns). *)
+From Robo Require Import Prelude Str Wells Utils Labware Tips Records Partition Params Worklist EvoCmd
+  Program Invariants WellsProofs LabwareProofs WorklistLevelProofs.
 
 Definition plate (R C : nat) : geom := {| g_rows := R; g_cols := C; g_vrows := None |}.
 Definition trough (V C : nat) : geom := {| g_rows := 1; g_cols := C; g_vrows := Some V |}.
@@ -74,12 +82,201 @@ Theorem C08_index_defined_iff : forall g s,
 Proof. exact well_index_defined_iff. Qed.
 Print Assumptions C08_index_defined_iff.
 
-(** make_well_array / make_well_index_dict agree with the labware tables *)
+(** make_well_array / make_well_index_dict agree with the labware tables.
+    NOTE (audit M7): this statement is definitional - the model defines the two helpers as these very tables
+    ([Model/Wells.v]), so it only records that fact.  The non-definitional link between the helper table and
+    the numbering is [C08_position_is_colmajor_index] below. *)
 Theorem C08_helpers : forall R C,
   make_well_array R C = wells_table (plate R C) /\
   forall s, make_well_index R C s = well_index (plate R C) s.
 Proof. exact helpers_agree. Qed.
 Print Assumptions C08_helpers.
+
+(** the position computed arithmetically is 1 + the index of the well in the column-major enumeration of
+    [make_well_array R C] ([numpy.array(wells).flatten("F")]), on both devices, for every plate *)
+Theorem C08_position_is_colmajor_index : forall R C r c, 1 <= R <= 26 -> r < R -> c < C ->
+  length (flattenF (A2 (make_well_array R C))) = R * C /\
+  nth (pos_of R r c - 1) (flattenF (A2 (make_well_array R C))) EmptyString = well_id r c /\
+  evo_position (plate R C) (well_id r c) = Ok (pos_of R r c) /\
+  fluent_position (plate R C) (well_id r c) = Ok (pos_of R r c).
+Proof. exact position_is_colmajor_index. Qed.
+Print Assumptions C08_position_is_colmajor_index.
+
+(* ================================================================== unknown well ids (M7) *)
+
+(** where a rejected removal / addition stopped: the arguments were refused and nothing happened, or the
+    pairs [pre] before the refused one [it] have been applied ([comps_of wv comps] = the compositions paired
+    with the wells, [add_items] = the loop argument of [add]) *)
+Definition remove_stops_at (L : labware) (wells : arr string) (vols : arr xnum) (L' : labware) (e : err)
+    : Prop :=
+  (prep_wells_vols wells vols = Err EReject /\ L' = L /\ e = EReject) \/
+  exists pre it post,
+    prep_wells_vols wells vols = Ok (pre ++ it :: post)%list /\ remove_loop L pre = (L', None) /\
+    remove_loop L' [it] = (L', Some e).
+
+Definition add_stops_at (L : labware) (wells : arr string) (vols : arr xnum)
+    (comps : option (list (option composition))) (L' : labware) (e : err) : Prop :=
+  (prep_wells_vols wells vols = Err EReject /\ L' = L /\ e = EReject) \/
+  (exists wv, prep_wells_vols wells vols = Ok wv /\ length (comps_of wv comps) <> length wv /\
+              L' = L /\ e = EReject) \/
+  exists wv pre it post,
+    prep_wells_vols wells vols = Ok wv /\ length (comps_of wv comps) = length wv /\
+    add_items wv comps = (pre ++ it :: post)%list /\ add_loop L pre = (L', None) /\
+    add_loop L' [it] = (L', Some e).
+
+Definition record_error (e : err) : Prop := e = EReject \/ e = EInvalidOp \/ e = ECompat.
+
+(** direct calls: a call naming an unknown id is never accepted *)
+Theorem C08_remove_unknown_well : forall L wells vols label,
+  (exists w, In w (flattenF wells) /\ lw_index L w = None) ->
+  exists L' e, remove L wells vols label = (L', Some e).
+Proof. exact remove_unknown. Qed.
+Print Assumptions C08_remove_unknown_well.
+
+Theorem C08_add_unknown_well : forall L wells vols label comps,
+  (exists w, In w (flattenF wells) /\ lw_index L w = None) ->
+  exists L' e, add L wells vols label comps = (L', Some e).
+Proof. exact add_unknown. Qed.
+Print Assumptions C08_add_unknown_well.
+
+(** [aspirate] / [dispense] / [evo_aspirate] / [evo_dispense] naming an unknown id: the call raises, the
+    worklist is unchanged (no record, no comment), no history entry is written, every other labware is
+    untouched *)
+Theorem C08_aspirate_unknown_well : forall s k wells vols label kw L,
+  nth_error (st_lw s) k = Some L -> (exists w, In w (flattenF wells) /\ lw_index L w = None) ->
+  let r := aspirate s k wells vols label kw in
+  (exists e, snd r = Some e) /\ st_wl (fst r) = st_wl s /\ w_recs (st_wl (fst r)) = w_recs (st_wl s) /\
+  map lw_hist (st_lw (fst r)) = map lw_hist (st_lw s) /\
+  forall j, j <> k -> nth_error (st_lw (fst r)) j = nth_error (st_lw s) j.
+Proof. exact aspirate_unknown_no_record. Qed.
+Print Assumptions C08_aspirate_unknown_well.
+
+Theorem C08_dispense_unknown_well : forall s k wells vols label comps kw L,
+  nth_error (st_lw s) k = Some L -> (exists w, In w (flattenF wells) /\ lw_index L w = None) ->
+  let r := dispense s k wells vols label comps kw in
+  (exists e, snd r = Some e) /\ st_wl (fst r) = st_wl s /\ w_recs (st_wl (fst r)) = w_recs (st_wl s) /\
+  map lw_hist (st_lw (fst r)) = map lw_hist (st_lw s) /\
+  forall j, j <> k -> nth_error (st_lw (fst r)) j = nth_error (st_lw s) j.
+Proof. exact dispense_unknown_no_record. Qed.
+Print Assumptions C08_dispense_unknown_well.
+
+Theorem C08_evo_aspirate_unknown_well : forall s k a label L,
+  nth_error (st_lw s) k = Some L -> (exists w, In w (flattenF (c_wells a)) /\ lw_index L w = None) ->
+  let r := evo_aspirate s k a label in
+  (exists e, snd r = Some e) /\ st_wl (fst r) = st_wl s /\ w_recs (st_wl (fst r)) = w_recs (st_wl s) /\
+  map lw_hist (st_lw (fst r)) = map lw_hist (st_lw s) /\
+  forall j, j <> k -> nth_error (st_lw (fst r)) j = nth_error (st_lw s) j.
+Proof. exact evo_aspirate_unknown_no_record. Qed.
+Print Assumptions C08_evo_aspirate_unknown_well.
+
+Theorem C08_evo_dispense_unknown_well : forall s k a label comps L,
+  nth_error (st_lw s) k = Some L -> (exists w, In w (flattenF (c_wells a)) /\ lw_index L w = None) ->
+  let r := evo_dispense s k a label comps in
+  (exists e, snd r = Some e) /\ st_wl (fst r) = st_wl s /\ w_recs (st_wl (fst r)) = w_recs (st_wl s) /\
+  map lw_hist (st_lw (fst r)) = map lw_hist (st_lw s) /\
+  forall j, j <> k -> nth_error (st_lw (fst r)) j = nth_error (st_lw s) j.
+Proof. exact evo_dispense_unknown_no_record. Qed.
+Print Assumptions C08_evo_dispense_unknown_well.
+
+(** "and all labware volumes are unchanged" is FALSE for these four calls: [add] / [remove] look an id up when
+    its pair is reached, so the pairs before the unknown id have been applied (the library does the same:
+    the loop of Labware.add / Labware.remove indexes [self.indices[well]] pair by pair) *)
+Theorem C08_aspirate_unknown_volumes_refuted :
+  exists s k L wells vols label kw,
+    nth_error (st_lw s) k = Some L /\ (exists w, In w (flattenF wells) /\ lw_index L w = None) /\
+    map lw_vols (st_lw (fst (aspirate s k wells vols label kw))) <> map lw_vols (st_lw s).
+Proof. exact aspirate_unknown_volumes_refuted. Qed.
+Print Assumptions C08_aspirate_unknown_volumes_refuted.
+
+Theorem C08_dispense_unknown_volumes_refuted :
+  exists s k L wells vols label comps kw,
+    nth_error (st_lw s) k = Some L /\ (exists w, In w (flattenF wells) /\ lw_index L w = None) /\
+    map lw_vols (st_lw (fst (dispense s k wells vols label comps kw))) <> map lw_vols (st_lw s).
+Proof. exact dispense_unknown_volumes_refuted. Qed.
+Print Assumptions C08_dispense_unknown_volumes_refuted.
+
+(** what holds for the volumes (the _partial statements): the resulting state is [set_lw s k L'], where [L']
+    is the labware after the accepted pairs before the refused one; volumes only went down (up) *)
+Theorem C08_aspirate_unknown_well_partial : forall s k wells vols label kw L,
+  nth_error (st_lw s) k = Some L -> (exists w, In w (flattenF wells) /\ lw_index L w = None) ->
+  exists L' e, aspirate s k wells vols label kw = (set_lw s k L', Some e) /\
+    (e = EUnderflow \/ e = EReject) /\ lw_hist L' = lw_hist L /\ lw_geom L' = lw_geom L /\
+    remove_stops_at L wells vols L' e /\ forall i, (vol_at L' i <= vol_at L i)%Q.
+Proof. exact aspirate_unknown_well. Qed.
+Print Assumptions C08_aspirate_unknown_well_partial.
+
+Theorem C08_dispense_unknown_well_partial : forall s k wells vols label comps kw L,
+  nth_error (st_lw s) k = Some L -> (exists w, In w (flattenF wells) /\ lw_index L w = None) ->
+  exists L' e, dispense s k wells vols label comps kw = (set_lw s k L', Some e) /\
+    (e = EOverflow \/ e = EReject) /\ lw_hist L' = lw_hist L /\ lw_geom L' = lw_geom L /\
+    add_stops_at L wells vols comps L' e /\ forall i, (vol_at L i <= vol_at L' i)%Q.
+Proof. exact dispense_unknown_well. Qed.
+Print Assumptions C08_dispense_unknown_well_partial.
+
+Theorem C08_evo_aspirate_unknown_well_partial : forall s k a label L,
+  nth_error (st_lw s) k = Some L -> (exists w, In w (flattenF (c_wells a)) /\ lw_index L w = None) ->
+  exists L' e, evo_aspirate s k a label = (set_lw s k L', Some e) /\
+    (e = EUnderflow \/ e = EReject) /\ lw_hist L' = lw_hist L /\ lw_geom L' = lw_geom L /\
+    remove_stops_at L (c_wells a) (evo_vols (c_volume a)) L' e /\ forall i, (vol_at L' i <= vol_at L i)%Q.
+Proof. exact evo_aspirate_unknown_well. Qed.
+Print Assumptions C08_evo_aspirate_unknown_well_partial.
+
+Theorem C08_evo_dispense_unknown_well_partial : forall s k a label comps L,
+  nth_error (st_lw s) k = Some L -> (exists w, In w (flattenF (c_wells a)) /\ lw_index L w = None) ->
+  exists L' e, evo_dispense s k a label comps = (set_lw s k L', Some e) /\
+    (e = EOverflow \/ e = EReject) /\ lw_hist L' = lw_hist L /\ lw_geom L' = lw_geom L /\
+    add_stops_at L (c_wells a) (evo_vols (c_volume a)) comps L' e /\
+    forall i, (vol_at L i <= vol_at L' i)%Q.
+Proof. exact evo_dispense_unknown_well. Qed.
+Print Assumptions C08_evo_dispense_unknown_well_partial.
+
+(** if the FIRST named id is unknown the whole state is unchanged *)
+Theorem C08_aspirate_unknown_first : forall s k wells vols label kw L w rest,
+  nth_error (st_lw s) k = Some L -> flattenF wells = w :: rest -> lw_index L w = None ->
+  aspirate s k wells vols label kw = (s, Some EReject).
+Proof. exact aspirate_unknown_first. Qed.
+Print Assumptions C08_aspirate_unknown_first.
+
+Theorem C08_dispense_unknown_first : forall s k wells vols label comps kw L w rest,
+  nth_error (st_lw s) k = Some L -> flattenF wells = w :: rest -> lw_index L w = None ->
+  dispense s k wells vols label comps kw = (s, Some EReject).
+Proof. exact dispense_unknown_first. Qed.
+Print Assumptions C08_dispense_unknown_first.
+
+Theorem C08_evo_aspirate_unknown_first : forall s k a label L w rest,
+  nth_error (st_lw s) k = Some L -> flattenF (c_wells a) = w :: rest -> lw_index L w = None ->
+  evo_aspirate s k a label = (s, Some EReject).
+Proof. exact evo_aspirate_unknown_first. Qed.
+Print Assumptions C08_evo_aspirate_unknown_first.
+
+Theorem C08_evo_dispense_unknown_first : forall s k a label comps L w rest,
+  nth_error (st_lw s) k = Some L -> flattenF (c_wells a) = w :: rest -> lw_index L w = None ->
+  evo_dispense s k a label comps = (s, Some EReject).
+Proof. exact evo_dispense_unknown_first. Qed.
+Print Assumptions C08_evo_dispense_unknown_first.
+
+(** [transfer] and [distribute] check all ids before any effect (fixes F15 / F17): an unknown source or
+    destination id leaves the WHOLE state unchanged - records, histories and all volumes *)
+Theorem C08_transfer_unknown_well : forall s ks kd swells dwells vols label ws pb kw Ls Ld,
+  nth_error (st_lw s) ks = Some Ls -> nth_error (st_lw s) kd = Some Ld ->
+  (exists x, In x (flattenF swells) /\ lw_index Ls x = None) \/
+  (exists x, In x (flattenF dwells) /\ lw_index Ld x = None) ->
+  exists e, transfer s ks swells kd dwells vols label ws pb kw = (s, Some e) /\ (e = EReject \/ e = ECompat).
+Proof. exact transfer_unknown_well. Qed.
+Print Assumptions C08_transfer_unknown_well.
+
+Theorem C08_distribute_unknown_well : forall s ks kd dwells a Ld,
+  nth_error (st_lw s) kd = Some Ld -> (exists w, In w (flattenF dwells) /\ lw_index Ld w = None) ->
+  exists e, distribute s ks kd dwells a = (s, Some e) /\ record_error e.
+Proof. exact distribute_unknown_well. Qed.
+Print Assumptions C08_distribute_unknown_well.
+
+(** the source of [distribute] is named by its column: a column the trough does not have is refused likewise *)
+Theorem C08_distribute_bad_column : forall s ks kd dwells a Ls,
+  nth_error (st_lw s) ks = Some Ls -> g_cols (lw_geom Ls) <= Z.to_nat (d_source_column a) ->
+  exists e, distribute s ks kd dwells a = (s, Some e) /\ record_error e.
+Proof. exact distribute_bad_column. Qed.
+Print Assumptions C08_distribute_bad_column.
 
 Example C08_example :
   evo_position (trough 4 2) "C02" = Ok 7 /\ fluent_position (trough 4 2) "C02" = Ok 2 /\
@@ -91,3 +288,39 @@ Example C08_example_ids :
   id_rc "A1" = None /\ id_rc "A001" = None /\ parse_id "C100" = Some ("C"%string, 100%N) /\
   n_row_ids (plate 8 12) = 8 /\ n_row_ids (trough 4 2) = 4.
 Proof. vm_compute. repeat split. Qed.
+
+(* ------------------------------------------------------------------ non-vacuity, unknown ids *)
+
+(** "Z09" is not a well of the 2 x 3 plate [ex_plate] although both position functions of an 8 x 12 plate
+    would accept "A1": the guard is the index table *)
+Definition C08_ex_state : state :=
+  {| st_lw := [ex_trough; ex_plate]; st_wl := init_wl Evo 950 true false |}.
+
+Definition C08_obs (r : state * option err) : list (list Q) * option err * nat * list nat :=
+  (map lw_vols (st_lw (fst r)), snd r, length (w_recs (st_wl (fst r))),
+   map (fun L => length (lw_hist L)) (st_lw (fst r))).
+
+Example C08_example_unknown :
+  lw_index ex_plate "Z09" = None /\ lw_index ex_plate "A1" = None /\ lw_index ex_plate "B03" = Some 5 /\
+  (* aspirate: A01 has been charged before Z09 is looked up; no record, no history entry *)
+  C08_obs (aspirate C08_ex_state 1 (A1 ["A01"; "Z09"]%string) (A0 (XQ 5)) (Some "x"%string) kw_default)
+  = ([[20000; 5000]; [45; 50; 50; 50; 50; 50]]%Q, Some EReject, 0, [1; 1]) /\
+  (* unknown id first: nothing at all *)
+  aspirate C08_ex_state 1 (A1 ["Z09"; "A01"]%string) (A0 (XQ 5)) (Some "x"%string) kw_default
+  = (C08_ex_state, Some EReject) /\
+  C08_obs (dispense C08_ex_state 1 (A1 ["A01"; "Z09"]%string) (A0 (XQ 5)) None None kw_default)
+  = ([[20000; 5000]; [55; 50; 50; 50; 50; 50]]%Q, Some EReject, 0, [1; 1]) /\
+  (* transfer / distribute: the whole state is unchanged *)
+  transfer C08_ex_state 0 (A0 "A01"%string) 1 (A1 ["A01"; "Z09"]%string) (A0 30%Q) None SFlush "auto"%string
+           kw_default = (C08_ex_state, Some EReject) /\
+  distribute C08_ex_state 0 1 (A1 ["A02"; "Z02"]%string)
+    {| d_source_column := 0; d_volume := RVInt 7; d_diti_reuse := 1; d_multi_disp := 1;
+       d_liquid_class := PStr "W"; d_label := None; d_direction := "left_to_right"%string;
+       d_src_id := PStr ""; d_src_type := PStr ""; d_dst_id := PStr ""; d_dst_type := PStr "" |}
+  = (C08_ex_state, Some EReject).
+Proof. vm_compute. repeat split; reflexivity. Qed.
+
+Example C08_example_colmajor :
+  flattenF (A2 (make_well_array 2 3)) = ["A01"; "B01"; "A02"; "B02"; "A03"; "B03"]%string /\
+  pos_of 2 1 2 = 6 /\ evo_position (plate 2 3) "B03" = Ok 6.
+Proof. vm_compute. repeat split; reflexivity. Qed.
